@@ -14,6 +14,7 @@ package simrt
 
 import (
 	"fmt"
+	"sort"
 	"runtime"
 	"strings"
 	"sync"
@@ -1483,7 +1484,29 @@ func (s *Sim) advanceClock() bool {
 	if best == nil && sleeper == nil {
 		return false
 	}
-	if sleeper != nil && (best == nil || sleeper.until <= best.when) {
+	if best != nil {
+		// several timers due at the same instant (virtual time makes that common: every
+		// sender of a publish arms its timeout at the same moment): which fires first
+		// is a draw, not creation order
+		var same []*stimer
+		for _, tm := range s.timers {
+			if tm.active && tm.when == best.when {
+				same = append(same, tm)
+			}
+		}
+		if len(same) > 1 {
+			sort.Slice(same, func(i, j int) bool { return same[i].seq < same[j].seq })
+			best = same[s.drawN(len(same))]
+			s.count("fault.timer_tie", 1)
+		}
+	}
+	sleeperFirst := sleeper != nil && (best == nil || sleeper.until <= best.when)
+	if sleeperFirst && best != nil && sleeper.until == best.when && s.drawN(2) == 1 {
+		// a sleeper and a timer due at the same instant: either may be served first
+		sleeperFirst = false
+		s.count("fault.timer_tie", 1)
+	}
+	if sleeperFirst {
 		s.now = sleeper.until
 		s.mix(0x7, uint64(s.now))
 		s.trace("clock -> %dns (sleeper t%d)", s.now, sleeper.id)
